@@ -169,6 +169,21 @@ def check(ctx):
                 t2 = tgt.elts[rest[0]]
                 return follow(t2.id, par.body, t2, rest[1:])
             return None
+        # iterated by a comprehension / generator expression: the same, the target lives in the element and the conditions
+        if isinstance(par, ast.comprehension) and par.iter is node and idx:
+            comp = parents.get(par)
+            if comp is None or not hasattr(comp, "generators"):
+                return None
+            scope = ([comp.elt] if hasattr(comp, "elt") else [comp.key, comp.value]) + [c for g in comp.generators for c in g.ifs] \
+                + [g.iter for g in comp.generators if g is not par]
+            rest = idx[1:]
+            tgt = par.target
+            if isinstance(tgt, ast.Name):
+                return follow(tgt.id, scope, tgt, rest)
+            if isinstance(tgt, (ast.Tuple, ast.List)) and rest and rest[0] < len(tgt.elts) and isinstance(tgt.elts[rest[0]], ast.Name):
+                t2 = tgt.elts[rest[0]]
+                return follow(t2.id, scope, t2, rest[1:])
+            return None
         # passed to a method of the protocol
         if not idx and isinstance(par, ast.Call) and node in par.args and isinstance(par.func, ast.Attribute) \
                 and isinstance(par.func.value, ast.Name) and par.func.value.id == "self":
